@@ -55,7 +55,8 @@ CPkgQualifier(path, found, q) ==
 \* ... and it sees every qualifier the file has imported so far (they are names visible in every method)
 CNewScope(vis) == CRange(imp) \subseteq vis /\ visible' = vis /\ UNCHANGED <<imp, inpkg, dst>>
 \* the scope produced for a method sees the qualifiers of the file's imports at that point
-CScopeSees(vis) == CRange(imp) \subseteq vis /\ UNCHANGED cvars
+\* and the names of the method's own parameters and results (must), as offered to the template
+CScopeSees(vis, must) == CRange(imp) \subseteq vis /\ must \subseteq vis /\ UNCHANGED cvars
 
 CReset(ip, d, vis) == visible' = vis /\ imp' = << >> /\ inpkg' = ip /\ dst' = d
 
